@@ -362,7 +362,8 @@ def cluster_shutdown(vc):
 
 
 @harness('C45', '_Scheduler', functions=['cassandra.cluster._Scheduler.shutdown', 'cassandra.cluster._Scheduler._insert_task',
-                                          'cassandra.cluster._Scheduler.schedule', 'cassandra.cluster._Scheduler.schedule_unique'])
+                                          'cassandra.cluster._Scheduler.schedule', 'cassandra.cluster._Scheduler.schedule_unique'],
+         native='contracts.native.c45:replay')
 def scheduler(vc):
     """ensures after _Scheduler.shutdown() no task (reconnection attempts, refreshes) is queued any more by schedule / schedule_unique"""
     from cassandra.cluster import _Scheduler
@@ -385,7 +386,8 @@ def scheduler(vc):
     vc.check('after/nothing-queued', len(puts) == 2)
 
 
-@harness('C45', 'requests-after-shutdown', functions=['cassandra.cluster.ResponseFuture.send_request', 'cassandra.cluster.ResponseFuture._query'])
+@harness('C45', 'requests-after-shutdown', functions=['cassandra.cluster.ResponseFuture.send_request', 'cassandra.cluster.ResponseFuture._query'],
+         native='contracts.native.c45:replay')
 def requests_refused(vc):
     """ensures a request issued on a shut-down session (every pool shut down or removed) is completed with NoHostAvailable naming
     every host - refused, not left pending - and sends nothing"""
